@@ -1,3 +1,242 @@
-import AkVerif.Model.Templates
+import AkVerif.Lemmas.TemplatesConform
+/-!
+# C05 — list, map and sequence templates return exactly the denoted items
+
+Property theorems only. The model (`Model/Templates.lean`) is the code of `ListProds`, `MapProds`, `ProdSequence`
+and `StdCleanuper._cleanup`: signature dictionaries, positions found by `_find_index`, walking the raw tree by
+`value[pos]`. The theorems say that for **every** raw tree that is a derivation by the productions the templates
+generate (`conforms o.genProds t`, an executable predicate the driver evaluates on every real parse tree) this
+table-driven walk returns exactly the item subtrees of the derivation, in document order, each cleaned with
+`for_container=True` and replaced by its value when it became a leaf.
+
+`WF` (hypothesis): the generated symbols `X__TAIL`, `X__KV_PAIR`, `X__ELEMENTS` differ from the user's symbols and
+the item symbol differs from the bracket / delimiter symbols. `wf_of_list_constructor` / `wf_of_map_constructor`
+derive it from what the code asserts (no `__` in user symbols) plus `item ∉ {open, close, delimiter}`;
+`ListProds('[','WORD','WORD',']')` is outside (there `_find_index` really picks the delimiter).
+-/
 namespace C05
+open Templates Ak
+
+/-- Whatever `ListProds.__init__`/`complete_init` accept is well-formed, provided the user's symbols contain no
+`__` (asserted by `LLParser`), the item symbol is not one of the bracket/delimiter symbols and — for a list without
+brackets and delimiter, whose tail symbol is the list symbol itself — the item is not the list. -/
+theorem wf_of_list_constructor (a : ListArgs) (res : Name) (o : ListOpts) (h : mkListOpts a res = .ok o)
+    (hitem : hasDU a.item = false)
+    (hopen : ∀ n, a.openBr = some n → hasDU n = false ∧ n ≠ a.item)
+    (hclose : ∀ n, a.closeBr = some n → hasDU n = false ∧ n ≠ a.item)
+    (hdelim : ∀ n, a.delim = some n → hasDU n = false ∧ n ≠ a.item)
+    (hres : a.openBr = none → a.delim = none → a.item ≠ res) : o.WF :=
+  ListOpts.wf_of_mk a res o h hitem hopen hclose hdelim hres
+
+/-- the same for `MapProds` (key, assignment and value symbols are not looked up by name, no condition on them) -/
+theorem wf_of_map_constructor (a : MapArgs) (res : Name) (o : MapOpts) (h : mkMapOpts a res = .ok o)
+    (hopen : ∀ n, a.openBr = some n → hasDU n = false)
+    (hclose : ∀ n, a.closeBr = some n → hasDU n = false)
+    (hdelim : ∀ n, a.delim = some n → hasDU n = false) : o.WF :=
+  MapOpts.wf_of_mk a res o h hopen hclose hdelim
+
+/-- Every raw tree of the list symbol that conforms to the generated productions is one of: absent optional list,
+empty bracket pair / empty bracket-less list, or `[ item tail ]` with a tail chain `, item , item … (,)?` — i.e. it
+determines a list of item subtrees and whether a final delimiter is present. -/
+theorem list_derivations (o : ListOpts) (wf : o.WF) (leaf : Bool) (v : Val)
+    (h : conforms o.genProds (.elem o.result leaf v) = true) :
+    ∃ r, ListShape o (.elem o.result leaf v) r :=
+  listShape_of_conforms o wf leaf v h
+
+/-- **List items.** For every conforming raw tree of a list the clean-up returns a leaf whose value is the Python
+list `adjust (map entry (cleaned items))`: one entry per item subtree of the derivation, in document order
+(`items` is a subsequence of the pre-order of the tree), `entry` = "value if the cleaned item is a leaf, else the
+element", `adjust` = the two documented rules (trailing `None` dropped when a final delimiter is allowed; a
+bracket-less list holding one `None` is `[]`). An error of an item's clean-up is propagated, first one first.
+An absent optional list keeps the value `None`. The for_container/for_choice flags of the call do not matter. -/
+theorem list_items (cl : Cleanuper) (o : ListOpts) (wf : o.WF)
+    (hT : lookup cl.templates o.result = some (.list o)) (leaf : Bool) (v : Val)
+    (h : conforms o.genProds (.elem o.result leaf v) = true) (fc fch : Bool) :
+    ∃ r, ListShape o (.elem o.result leaf v) r ∧
+      (∀ items fin, r = some (items, fin) → items.Sublist (preorder (.elem o.result leaf v))) ∧
+      cleanup cl (.elem o.result leaf v) fc fch =
+        match r with
+        | none => .ok ((o.result, true, .none), fch)
+        | some (items, _) =>
+          match cleanItems cl items with
+          | .ok es => .ok ((o.result, true, .list (adjust o (es.map entry))), fch)
+          | .error e => .error e := by
+  obtain ⟨r, hr⟩ := listShape_of_conforms o wf leaf v h
+  refine ⟨r, hr, ?_, ?_⟩
+  · intro items fin e
+    subst e
+    exact list_items_sublist hr
+  · rw [cleanup_list cl o wf hT hr fc fch]
+    cases r with
+    | none => rfl
+    | some p =>
+      simp only [listResult]
+      cases cleanItems cl p.1 <;> rfl
+
+/-- Every conforming raw tree of the map symbol is: absent optional map, empty bracket pair / empty bracket-less
+map, or `{ pair tail }` with `pair = MAP__KV_PAIR[key, assign, value]` and a tail chain `, pair , pair … (,)?`. -/
+theorem map_derivations (o : MapOpts) (wf : o.WF) (leaf : Bool) (v : Val)
+    (h : conforms o.genProds (.elem o.result leaf v) = true) :
+    ∃ r, MapShape o (.elem o.result leaf v) r :=
+  mapShape_of_conforms o wf leaf v h
+
+/-- **Map items.** For every conforming raw tree of a map the clean-up returns a leaf whose value is
+`dict([(entry key_i, entry value_i) …])` over the key/value nodes of the derivation in document order (each cleaned
+with `for_container=True`); an unhashable key (a list or dict) raises `TypeError` as in Python. -/
+theorem map_items (cl : Cleanuper) (o : MapOpts) (wf : o.WF)
+    (hT : lookup cl.templates o.result = some (.map o)) (leaf : Bool) (v : Val)
+    (h : conforms o.genProds (.elem o.result leaf v) = true) (fc fch : Bool) :
+    ∃ r, MapShape o (.elem o.result leaf v) r ∧
+      cleanup cl (.elem o.result leaf v) fc fch =
+        match r with
+        | none => .ok ((o.result, true, .none), fch)
+        | some (pairs, _) =>
+          match cleanPairs cl pairs with
+          | .error e => .error e
+          | .ok kvs =>
+            match pyDict kvs with
+            | .error e => .error e
+            | .ok d => .ok ((o.result, true, .dict d), fch) := by
+  obtain ⟨r, hr⟩ := mapShape_of_conforms o wf leaf v h
+  refine ⟨r, hr, ?_⟩
+  rw [cleanup_map cl o wf hT hr fc fch]
+  cases r with
+  | none => rfl
+  | some p =>
+    simp only [mapResult]
+    cases cleanPairs cl p.1 with
+    | error e => rfl
+    | ok kvs =>
+      simp only []
+      cases pyDict kvs <;> simp
+
+/-- **Python dict semantics, string keys** (keys that are tokens): the dictionary built by the model is the generic
+insertion-ordered dictionary `dictOf`; it never fails. -/
+theorem map_string_keys (ps : List (List Char × Val)) :
+    pyDict (ps.map fun p => (Val.str p.1, p.2)) = .ok ((dictOf ps).map fun p => (Val.str p.1, p.2)) :=
+  pyDict_str ps
+
+/-- … whose keys are the distinct keys in the order of their first occurrence … -/
+theorem dict_key_order (ps : List (List Char × Val)) :
+    (dictOf ps).map (·.1) = firstOcc (ps.map (·.1)) :=
+  dictOf_keys ps
+
+/-- … and a repeated key keeps the value of its last occurrence. -/
+theorem dict_last_value (ps : List (List Char × Val)) (k : List Char) :
+    lookup (dictOf ps) k = lastVal ps k :=
+  dictOf_lookup ps k
+
+/-- **Sequences.** The parse loop flattens `SEQ[SEQ__ELEMENT[x1], SEQ[SEQ__ELEMENT[x2], … SEQ()]]` (innermost node
+first) into a leaf whose value is `[x1, x2, …]`: the matched elements, in order. The clean-up keeps that node a leaf,
+cleans every element in place (so containers below a sequence become Python lists / dicts, repair 04414b3) and
+neither drops nor adds nor reorders elements. -/
+theorem seq_items (cl : Cleanuper) (name : Name) (t : Val) (xs : List Val) (h : SeqShape name t xs)
+    (hT : lookup cl.templates name = none) (hx : allElems xs = true) (fc fch : Bool) :
+    flattenSeq t = .ok (.elem name true (.list xs)) ∧
+    cleanup cl (.elem name true (.list xs)) fc fch =
+      (match cleanElems cl xs with
+       | .ok rs => .ok ((name, true, .list rs), fch)
+       | .error e => .error e) ∧
+    ∀ rs, cleanElems cl xs = .ok rs → rs.length = xs.length :=
+  ⟨flattenSeq_shape h, cleanup_seq_leaf cl name xs fc fch hT hx, fun rs hr => cleanElems_length cl xs rs hr⟩
+
+/-- **Empty and absent containers.** An empty bracket pair gives `[]` / `{}`, an empty bracket-less list gives `[]`,
+an absent optional list / map keeps the value `None`. -/
+theorem empty_and_absent (cl : Cleanuper) (fc fch : Bool) :
+    (∀ (o : ListOpts), o.WF → lookup cl.templates o.result = some (.list o) →
+      (∀ ob cb ol ov cl' cv, o.openBr = some ob → o.closeBr = some cb →
+        cleanup cl (.elem o.result false (.list [.elem ob ol ov, .elem cb cl' cv])) fc fch =
+          .ok ((o.result, true, .list []), fch)) ∧
+      (o.openBr = none → cleanup cl (.elem o.result true .none) fc fch = .ok ((o.result, true, .list []), fch)) ∧
+      (o.optional = true → cleanup cl (.elem o.result true .none) fc fch = .ok ((o.result, true, .none), fch))) ∧
+    (∀ (o : MapOpts), o.WF → lookup cl.templates o.result = some (.map o) →
+      (∀ ob cb ol ov cl' cv, o.openBr = some ob → o.closeBr = some cb →
+        cleanup cl (.elem o.result false (.list [.elem ob ol ov, .elem cb cl' cv])) fc fch =
+          .ok ((o.result, true, .dict []), fch)) ∧
+      (o.optional = true → cleanup cl (.elem o.result true .none) fc fch = .ok ((o.result, true, .none), fch))) := by
+  refine ⟨fun o wf hT => ⟨?_, ?_, ?_⟩, fun o wf hT => ⟨?_, ?_⟩⟩
+  · intro ob cb ol ov cl' cv hb hc
+    rw [cleanup_list cl o wf hT (.emptyBr ob cb ol ov cl' cv hb hc) fc fch]
+    simp [listResult, cleanItems, adjust, lastIsNone]
+  · intro hb
+    rw [cleanup_list cl o wf hT (.emptyNoBr hb) fc fch]
+    simp [listResult, cleanItems, adjust, lastIsNone, hb]
+  · intro ho
+    rw [cleanup_list cl o wf hT (.absent ho) fc fch]
+  · intro ob cb ol ov cl' cv hb hc
+    rw [cleanup_map cl o wf hT (.emptyBr ob cb ol ov cl' cv hb hc) fc fch]
+    simp [mapResult, cleanPairs, pyDict_nil]
+  · intro ho
+    rw [cleanup_map cl o wf hT (.absent ho) fc fch]
+
+/-- **Final delimiter.** (1) A derivation can end with a bare delimiter only when `allow_final_delimiter` holds
+(the production `TAIL -> (delimiter,)` is generated only then). (2) The final delimiter never adds an entry: two trees
+with the same items, one with and one without it, are cleaned to the same result. (3) Where the item is nullable the
+text `… , ]` can also be read as a trailing empty item; with `allow_final_delimiter` that trailing `None` is dropped
+again. The same (1), (2) for maps. -/
+theorem final_delim (cl : Cleanuper) (o : ListOpts) (wf : o.WF)
+    (hT : lookup cl.templates o.result = some (.list o)) (fc fch : Bool) :
+    (∀ t items, ListShape o t (some (items, true)) → o.afd = true ∧ o.delim.isSome = true ∧ o.openBr.isSome = true) ∧
+    (∀ t t' items f f', ListShape o t (some (items, f)) → ListShape o t' (some (items, f')) →
+      cleanup cl t fc fch = cleanup cl t' fc fch) ∧
+    (o.afd = true → ∀ vs, adjust o (vs ++ [.none]) = vs) := by
+  refine ⟨?_, ?_, ?_⟩
+  · intro t items h
+    have ha := listShape_fin_afd h
+    exact ⟨ha, wf.afd ha⟩
+  · intro t t' items f f' h h'
+    rw [cleanup_list cl o wf hT h fc fch, cleanup_list cl o wf hT h' fc fch]
+  · intro ha vs
+    exact adjust_drop_none o ha vs
+
+/-- final delimiter, maps -/
+theorem final_delim_map (cl : Cleanuper) (o : MapOpts) (wf : o.WF)
+    (hT : lookup cl.templates o.result = some (.map o)) (fc fch : Bool) :
+    (∀ t pairs, MapShape o t (some (pairs, true)) → o.afd = true) ∧
+    (∀ t t' pairs f f', MapShape o t (some (pairs, f)) → MapShape o t' (some (pairs, f')) →
+      cleanup cl t fc fch = cleanup cl t' fc fch) := by
+  refine ⟨?_, ?_⟩
+  · intro t pairs h
+    exact mapShape_fin_afd h
+  · intro t t' pairs f f' h h'
+    rw [cleanup_map cl o wf hT h fc fch, cleanup_map cl o wf hT h' fc fch]
+
+/-! Non-vacuity: the hypotheses hold for `LIST = ListProds('[', 'ITEM', ',', ']')`, `MAP = MapProds('{', 'WORD', ':',
+'VALUE', ',', '}')` and concrete raw trees, and the kernel evaluates the model on them. -/
+
+private def exL : ListOpts :=
+  ⟨some "[".toList, "ITEM".toList, some ",".toList, some "]".toList, true, false, "LIST".toList⟩
+private def exM : MapOpts :=
+  ⟨some "{".toList, "WORD".toList, ":".toList, "VALUE".toList, ",".toList, some "}".toList, false, true, "MAP".toList⟩
+private def exCl : Cleanuper :=
+  { templates := [("LIST".toList, .list exL), ("MAP".toList, .map exM)], choice := ["VALUE".toList],
+    keep := ["E".toList], squash := ["ITEM".toList, "VALUE".toList] }
+private def tok (n s : String) : Val := .elem n.toList true (.str s.toList)
+private def nd (n : String) (xs : List Val) : Val := .elem n.toList false (.list xs)
+private def item (s : String) : Val := nd "ITEM" [tok "WORD" s]
+/-- raw tree of `[a, b,]` -/
+private def exT : Val :=
+  nd "LIST" [tok "[" "[", item "a",
+    nd "LIST__TAIL" [tok "," ",", item "b", nd "LIST__TAIL" [tok "," ","]], tok "]" "]"]
+/-- raw tree of `{k: x, z: y, k: w}` -/
+private def kv (k v : String) : Val := nd "MAP__KV_PAIR" [tok "WORD" k, tok ":" ":", nd "VALUE" [tok "WORD" v]]
+private def exMT : Val :=
+  nd "MAP" [tok "{" "{", kv "k" "x",
+    nd "MAP__ELEMENTS" [tok "," ",", kv "z" "y",
+      nd "MAP__ELEMENTS" [tok "," ",", kv "k" "w", .elem "MAP__ELEMENTS".toList true .none]], tok "}" "}"]
+
+example : mkListOpts ⟨some "[".toList, "ITEM".toList, some ",".toList, some "]".toList, none, none⟩ "LIST".toList =
+    .ok exL := by rfl
+example : exL.WF := by constructor <;> decide
+example : exM.WF := by constructor <;> decide
+example : conforms exL.genProds exT = true := by decide
+example : conforms exM.genProds exMT = true := by decide
+example : cleanup exCl exT false false =
+    .ok (("LIST".toList, true, .list [.str "a".toList, .str "b".toList]), false) := by rfl
+example : cleanup exCl exMT false false =
+    .ok (("MAP".toList, true, .dict [(.str "k".toList, .str "w".toList), (.str "z".toList, .str "y".toList)]), false) := by
+  rfl
+example : flattenSeq (nd "S" [nd "S__ELEMENT" [tok "WORD" "a"], nd "S" [nd "S__ELEMENT" [tok "WORD" "b"],
+    .elem "S".toList true .none]]) = .ok (.elem "S".toList true (.list [tok "WORD" "a", tok "WORD" "b"])) := by rfl
+
 end C05
